@@ -215,6 +215,7 @@ def slack_rules(ctx, name, convert):
         ctx.check(not fw, R + '/guards/always/unchanged', 'T-BRANCHFX', body.name, 'constraint function is rewritten on the always-satisfied path', body.site(bi))
         feats['always'] = True
     if convert:
+        hull_rule(ctx, R, body)
         # g7: slack range limit
         lim = None
         for bi, st in float_cmp_sites(body, ('Gt', 'Ge', 'Lt', 'Le')):
@@ -362,6 +363,61 @@ def slack_rules(ctx, name, convert):
     return feats
 
 
+MUL_CALL = re.compile(r'std::ops::Mul(<.*>)?( for [^>]*)?>::mul$')
+
+
+def hull_rule(ctx, R, body):
+    """convert: every interval whose ends decide infeasible / always-satisfied / the slack range is the INTEGER HULL OF THE
+    INTERVAL OF a*f — rounding (as_integer_bound) is the outermost step.  Decided on the expression tree of the receiver of
+    each Bound::lower()/upper() that derives from evaluate_bound:
+       ok         as_integer_bound( evaluate_bound( a*f | f*a ) )            a = content_factor(), f = constraint.function (clone)
+       ok         as_integer_bound( a * evaluate_bound(f) | evaluate_bound(f) * a )
+                  (Bound * f64 scales both ends by the same non-negative a, interval evaluation is positively homogeneous,
+                   and the floating-point difference to the first form is far below the atol = 1e-6 of as_integer_bound)
+       violation  a multiplication above as_integer_bound (scaling after rounding: ceil/floor of the unscaled interval)
+       violation  as_integer_bound of an interval that does not contain the factor a at all (rounding the interval of f)
+       violation  no as_integer_bound
+       undecided  anything else that keeps a inside and no product outside the rounding (weaker clause = the two above)"""
+    is_a = lambda e: T.strip_wrappers(e)[0] == 'call' and T.strip_wrappers(e)[1] == 'content_factor'
+    has_a = lambda e: any(x[0] == 'call' and x[1] == 'content_factor' for x in T.expr_walk(e))
+    is_f = lambda e: (CON, 'function') in T.expr_fields(e) and not any(x[0] == 'call' and MUL_CALL.search(x[2]) for x in T.expr_walk(e))
+    def interval_of(e):
+        """'a*f' | 'f' | None for an expression that should be an interval (Bound)"""
+        e = T.strip_wrappers(e)
+        if e[0] != 'call': return None
+        if e[1] == 'evaluate_bound' and e[2].endswith('impl v1::Function>::evaluate_bound'):
+            g = T.strip_wrappers(e[3][0])
+            if g[0] == 'call' and MUL_CALL.search(g[2]) and len(g[3]) == 2:
+                x, y = g[3]
+                if (is_a(x) and is_f(y)) or (is_a(y) and is_f(x)): return 'a*f'
+                return None
+            return 'f' if is_f(g) else None
+        if MUL_CALL.search(e[2]) and len(e[3]) == 2:
+            x, y = e[3]
+            if is_a(x) and interval_of(y) == 'f': return 'a*f'
+            if is_a(y) and interval_of(x) == 'f': return 'a*f'
+        return None
+    verdicts = []
+    for c in body.calls:
+        if c.item not in ('lower', 'upper') or not c.path.endswith('Bound::' + c.item) or not c.args: continue
+        if not ctx.S.slice_operand(body, c.args[0]).has_call(r'impl v1::Function>::evaluate_bound'): continue
+        e = T.strip_wrappers(T.expr(body, c.args[0], depth=40))
+        nodes = list(T.expr_walk(e))
+        rounds = [x for x in nodes if x[0] == 'call' and x[1] == 'as_integer_bound']
+        outside = [x for x in nodes if x[0] == 'call' and MUL_CALL.search(x[2]) and any(y[0] == 'call' and y[1] == 'as_integer_bound' for a_ in x[3] for y in T.expr_walk(a_))]
+        if outside: verdicts.append(('bad', c, 'the interval is scaled after it was rounded to integers'))
+        elif not rounds: verdicts.append(('bad', c, 'the interval is not rounded to integers (as_integer_bound)'))
+        elif not all(has_a(x) for x in rounds): verdicts.append(('bad', c, 'the interval of f is rounded without the content factor a'))
+        elif e[0] == 'call' and e[1] == 'as_integer_bound' and interval_of(e[3][0]) == 'a*f': verdicts.append(('ok', c, ''))
+        else: verdicts.append(('undecided', c, 'shape of the scaled interval not recognised: ' + T.expr_str(e, 8)[:160]))
+    bad = [v for v in verdicts if v[0] == 'bad']; und = [v for v in verdicts if v[0] == 'undecided']
+    rule = R + '/bound/hull-of-scaled'
+    if not verdicts: ctx.bad(rule, 'T-CARRY', body.name, 'no bound.lower() / bound.upper() of an evaluated interval', body.site())
+    elif bad: ctx.bad(rule, 'T-CARRY', body.name, bad[0][2], body.site(bad[0][1].bb))
+    elif und: ctx.undecided(rule, 'T-CARRY', body.site(und[0][1].bb), und[0][2])
+    else: ctx.ok(rule, 'T-CARRY', body.site(verdicts[0][1].bb), ends=len(verdicts))
+
+
 def pushed_structs(body, pushes):
     """for every push: (locals holding the struct before the push — plain copy chain, aggregate statement or None)"""
     out = []
@@ -410,4 +466,4 @@ def check(ctx):
     b = slack_rules(ctx, 'add_integer_slack_to_inequality', False)
     # sibling agreement on the shared guard set
     ctx.check(a == b, 'C13.sibling/guard-set', 'T-SIBLING', 'convert_… vs add_…', 'guard sets differ: convert=%s add=%s' % (sorted(a.items()), sorted(b.items())))
-    ctx.floor('C13.convert', 44); ctx.floor('C13.add', 44)
+    ctx.floor('C13.convert', 45); ctx.floor('C13.add', 44)
